@@ -141,6 +141,7 @@ const (
 	actServe action = iota
 	actReset
 	actByzForge
+	actByzGoodForge // a genuine certificate followed by a forged successor: the poll ends Illegal after contributing one
 	actByzEmpty
 )
 
@@ -172,6 +173,7 @@ type produced struct {
 }
 
 type rig struct {
+	goodForge int // requests answered with a genuine certificate followed by a forged one
 	localAny bool // local puts also of certificates the polled server does not hold
 	ctx      context.Context
 	cancel   context.CancelFunc
@@ -348,6 +350,11 @@ func (r *rig) byzHandle(idx int, st network.Stream) {
 		_ = st.Reset()
 		return
 	}
+	if act == actByzGoodForge {
+		_ = r.gen.get(int(req.FirstInstance)).MarshalCBOR(st)
+		req.FirstInstance++
+		act = actByzForge
+	}
 	if act == actByzForge {
 		good := r.gen.get(int(req.FirstInstance))
 		bad := *good
@@ -396,6 +403,13 @@ func (r *rig) handleGate(ev *gateEv) error {
 		}
 	case kindByzForge:
 		act = actByzForge
+		// progress phase only (its oracle is model-free): whenever something is there to fetch the forger first hands
+		// over the genuine next certificate (a peer judged Illegal is not asked again, so this is its one answer), so a peer whose poll ends Illegal has advanced the store.
+		// Decided by the store position, not by the PRNG (draw order of the scenarios unchanged).
+		if nx := int(r.storeNext()); r.localAny && nx < len(r.prod) {
+			act = actByzGoodForge
+			r.goodForge++
+		}
 	case kindByzEmpty:
 		act = actByzEmpty
 	}
